@@ -33,9 +33,18 @@ def _text_worker(args):
     from beanquery import shell
     from harness import tables as ht2
     import decimal
-    conn = ht2.connection(ht2.HarnessTable('g', selectcheck.COLS, [(1, 'a', 1, decimal.Decimal('0.5'), 1), (2, None, None, None, 2)]))
+    conn = ht2.connection(ht2.HarnessTable('g', selectcheck.COLS + [('m', 'dict'), ('l', 'list')],
+                                           [(1, 'a', 1, decimal.Decimal('0.5'), 1, {'x': 1}, ['a']), (2, None, None, None, 2, None, None)]))
+    from beancount import loader
+    entries, errors, options = loader.load_string(LEDGER)
+    lconn = beanquery.connect('beancount:', entries=entries, errors=errors, options=options)
     out = []
     for tid, text in texts:
+        if text.startswith('@ledger '):
+            text = text[8:]
+            conn_ = lconn
+        else:
+            conn_ = conn
         ev = {'id': tid, 'len': len(text), 'cls': 'ok', 'haspos': 0, 'pos': 0, 'endpos': 0, 'line': 0, 'nlines': 0,
               'linestart': 0, 'lineend': 0, 'render': 1}
         try:
@@ -47,7 +56,7 @@ def _text_worker(args):
                 ev['skipped'] = 'print-via-cursor'
                 out.append(ev)
                 continue
-            conn.execute(stmt).fetchall()
+            conn_.execute(stmt).fetchall()
         except Exception as ex:  # noqa
             ev['cls'] = type(ex).__name__
             import re as _re
@@ -75,6 +84,25 @@ def _text_worker(args):
     return out
 
 
+LEDGER = """
+2020-01-01 open Assets:Cash
+2020-01-01 open Expenses:Food
+2020-01-02 * "P" "n" #t
+  k: "v"
+  Assets:Cash  -10.00 USD
+  Expenses:Food  10.00 USD
+2020-01-03 note Assets:Cash "hello"
+"""
+
+LEDGER_TEXTS = ['SELECT entry.nope', 'SELECT position.nope', 'SELECT position.units.nope', 'SELECT entry.meta.x', "SELECT meta['k'].y",
+                'SELECT account.x', "SELECT date['k']", 'SELECT entry.date, entry.flag, position.units.currency', 'SELECT nope(account)',
+                'SELECT account FROM #nope', 'SELECT tags FROM #transactions GROUP BY tags', 'SELECT meta, count(*)', 'SELECT count(*) GROUP BY meta',
+                'SELECT DISTINCT meta', 'SELECT other_accounts, count(*)', 'SELECT count(*) GROUP BY balance', 'SELECT account ORDER BY nope',
+                'SELECT open.nope FROM #accounts', 'SELECT open.date, close.date FROM #accounts', 'SELECT account WHERE meta', 'BALANCES AT nope',
+                'JOURNAL "Cash" AT nope', 'SELECT account FROM OPEN ON 2020-02-01 CLOSE ON 2020-01-01', 'SELECT account FROM OPEN ON 2020-01-01 CLOSE',
+                'SELECT account FROM has_account("x") + 1', 'SELECT account FROM sum(number) > 1', 'SELECT units(account)', 'SELECT sum(account)',
+                'SELECT account IN tags', 'SELECT account IN account', 'SELECT getitem(account, "k")', 'SELECT meta("a", "b")', 'SELECT any_meta(1)']
+
 TOKENS_EXTRA = ['SELECT', 'FROM', 'WHERE', 'GROUP', 'BY', 'ORDER', 'HAVING', 'PIVOT', 'LIMIT', 'DISTINCT', 'AS', 'AND', 'OR', 'NOT',
                 'IN', 'IS', 'NULL', 'BETWEEN', '(', ')', ',', '*', '+', '-', '/', '%', '=', '!=', '<', '<=', '~', "'x'", '"y"', '1', '2.5',
                 '2020-02-30', '2020-13-45', '0000-00-00', '9' * 5000, '#g', '#nope', '#', 'k', 'v', 'count', 'sum', ';', '%s', '%(a)s',
@@ -92,7 +120,10 @@ def text_corpus(ctx, n):
            'SELECT k FROM #g PIVOT BY k', 'SELECT k, v FROM #g PIVOT BY k, v', 'SELECT k FROM #g ORDER BY sum(v)',
            'SELECT k, sum(v) FROM #g GROUP BY k HAVING sum(v) > v', 'SELECT k FROM #g LIMIT -1', 'SELECT %s FROM #g', 'SELECT %(a)s FROM #g',
            'SELECT k FROM #g WHERE k IN (SELECT k, v FROM #g)', 'SELECT k.nope FROM #g', "SELECT k['x'] FROM #g", 'SELECT nofn(k) FROM #g',
-           'SELECT k FROM #nope', 'SELECT * FROM #g WHERE sum(v) > 1', 'SELECT sum(sum(v)) FROM #g', 'SELECT k + sum(v) FROM #g']
+           'SELECT k FROM #nope', 'SELECT * FROM #g WHERE sum(v) > 1', 'SELECT sum(sum(v)) FROM #g', 'SELECT k + sum(v) FROM #g',
+           'SELECT m, count(*) FROM #g GROUP BY m', 'SELECT count(*) FROM #g GROUP BY l', 'SELECT m, count(*) FROM #g', 'SELECT DISTINCT m FROM #g',
+           'SELECT DISTINCT k, l FROM #g', "SELECT m['x'], l FROM #g", "SELECT k['x'] FROM #g", 'SELECT m.x FROM #g', 'SELECT k IN l, k IN m FROM #g']
+    out += ['@ledger ' + t for t in LEDGER_TEXTS]
     while len(out) < n:
         fam = rng.choice(['plain', 'order', 'group', 'pivot'])
         try:
